@@ -160,7 +160,7 @@ CHECKS = {
             'probes, each compared with its outcome as the only evaluation of a pristine process, with debug off and on; the '
             'set of heap states reachable by parse operations is searched to a fixpoint (~150 states on the current tree), '
             'which decides the unbounded-repetition clause; interpreter-wide settings (recursion limit, int/str digit limit, locale, time zone, environment ...) are compared before and after every evaluation; results that are lists are mutated by the host and the formula evaluated again (no aliasing of caches); every documented function x '
-            'arity <= 2/3 x list-valued argument position is checked for deep-equality of host values before/after. The clock is an environment answer: formulas without NOW / TODAY over 26 date texts (complete, without a day, a time of day only, without a year) give one outcome under 4 clocks.',
+            'arity <= 2/3 x list-valued argument position is checked for deep-equality of host values before/after. The clock is an environment answer: formulas without NOW / TODAY over 39 date texts (complete, without a day, a time of day only, without a year, with a two-digit year) give one outcome under 4 clocks.',
             'Trusted: the heap fingerprint (stdlib objects opaque); fork() to restore a state; clock/random seams. PLY '
             'leftovers are part of the state key, not of the oracle.', 'DESIGN.md §5 C02'),
     'C03': ('stateless schedule exploration of two real threads (one parser each) under a cooperative scheduler with '
